@@ -9,6 +9,7 @@ from .. import build
 REQUIRED_WITNESSES = ['C', 'P', 'E:HeaderName', 'E:Token']
 BOUNDS = {'quick': 'no_std build and word-at-a-time std build: requests <= 6 bytes and header blocks <= 6 bytes behind concrete start lines through all entry-point flavours (all options symbolic), responses <= 9 bytes, parse_headers <= 8, parse_chunk_size <= 4; runtime-dispatch build: header blocks <= 5; build matrix: --no-default-features x {no target feature, +sse4.2, +avx2, +sse4.2,+avx2} x CARGO_CFG_HTTPARSE_DISABLE_SIMD_COMPILETIME {unset,1} x CARGO_CFG_HTTPARSE_DISABLE_SIMD {unset,1}',
           'thorough': 'requests <= 8, header blocks <= 8, responses <= 11'}
+ASSUMPTIONS = ['stub: std::env::var / var_os return an arbitrary Option (the process environment is nondeterministic); Some(..) is an owned string, i.e. a heap allocation; the native gate sets the named variable in the replay process']
 OUTSIDE = 'longer inputs; the build half is a fact about rustc/cargo, exercised not decided by the solver'
 EXPLANATION = 'every call terminator on every explored path resolves to crate MIR or to a model in mirse/models.py; none of the models allocates; allocator-family paths (alloc::, Vec, String, Box, to_vec, to_owned, format, ...) are failures'
 
